@@ -20,6 +20,11 @@ PURE_LOCAL = re.compile(r"^sqlgrep::data_model::(Tables::get|TableDefinition::ex
 EXTRACT_CALLERS_ALLOWED = set(PER_LINE) | {"sqlgrep::table_editor::TableEditor::update_preview", "sqlgrep::table_editor::TableEditor::new"}
 
 
+def rules_sites_roots(R):
+    from . import rules_sites
+    return rules_sites.roots(R, "EXEC")
+
+
 def run(R):
     P = R.prog
     R.rule("C06.guard", "per-line entry points: every call into the engine and every write through self is dominated by the true "
@@ -29,74 +34,185 @@ def run(R):
                         "clears the row on every path, and the NULL test follows DEFAULT substitution")
     R.rule("C06.route", "the joined file is loaded through ExecutionEngine::execute (so the same guard applies to it)")
     R.rule("C06.limit", "the LIMIT counter is fed only from emitted rows")
-    for name in PER_LINE:
-        f = R.need_fn(name)
+    from . import effects as E
+    ENG_ADT = "sqlgrep::execution::execution_engine::ExecutionEngine"
+    exf = R.need_fn("sqlgrep::data_model::TableDefinition::extract")
+    reach = P.reachable(rules_sites_roots(R))
+    inert = E.inert_fields(P, ENG_ADT, reach)
+
+    def direct_admit(f):
+        """(switch, admitted target, rejected target, any_result call) when f extracts a row and branches on its any_result()"""
         ex = PR.calls_matching(f, EXTRACT)
         ar = PR.calls_matching(f, ANY_RESULT)
-        key = f.spath.split("::")[-1]
         if len(ex) != 1 or len(ar) != 1:
-            R.violation("C06.guard", key + "|shape", "%s must extract the row once and test any_result() once (found %d / %d)"
+            return None
+        if not any(o.kind == "call" and o.call is ex[0] for o in F.origins(f, ar[0].args[0], depth=6)):
+            return None
+        g = PR.bool_guard(f, ar[0])
+        if g is None or not F.edge_target_unique(f, g[0], g[1]):
+            return None
+        return (g[0], g[1], g[2], ar[0])
+
+    def is_admission_helper(h):
+        """h returns Some(row) exactly on the admitted edge of its own any_result() test"""
+        if not h.local_ty(0).startswith("core::option::Option<sqlgrep::data_model::Row"):
+            return False
+        d = direct_admit(h)
+        if d is None:
+            return False
+        somes = [i for i, st in h.stmts() if st["k"] == "assign" and st["rv"]["k"] == "aggr" and st["rv"].get("variant") == "Some"
+                 and "data_model::Row" in h.local_ty(st["pl"]["l"])]
+        return bool(somes) and all(h.dominates(d[1], i) for i in somes)
+
+    helpers = set(k for k, h in P.fns.items() if h.target == "lib" and h.kind != "Closure" and PR.calls_matching(h, EXTRACT) and is_admission_helper(h))
+
+    def admit_edge(f):
+        d = direct_admit(f)
+        if d is not None:
+            return d
+        hc = [c for c in f.calls if any(k in helpers for k in P.callee_keys(f, c))]
+        if len(hc) == 1:
+            g = PR.discr_guard(f, hc[0], "Some")
+            if g is not None and F.edge_target_unique(f, g[0], g[1]) and g[2]:
+                return (g[0], g[1], g[2][0], hc[0])
+        return None
+
+    per_line = []
+    for k in sorted(reach):
+        f = P.fns[k]
+        if f.kind == "Closure" or f.target != "lib" or k in helpers:
+            continue
+        touches = PR.calls_matching(f, EXTRACT) or [c for c in f.calls if any(k2 in helpers for k2 in P.callee_keys(f, c))]
+        if not touches or f.spath.startswith("sqlgrep::table_editor") or f.spath.startswith("sqlgrep::python_wrapper"):
+            continue
+        per_line.append(f)
+    for f in per_line:
+        key = f.spath.split("::")[-1]
+        d = admit_edge(f)
+        if d is None:
+            ex = PR.calls_matching(f, EXTRACT)
+            ar = PR.calls_matching(f, ANY_RESULT)
+            R.violation("C06.guard", key + "|shape", "%s extracts a row but does not branch on any_result() of that row (extract calls %d, "
+                                                     "any_result calls %d): a line that yields no row is treated like one that does"
                         % (f.path, len(ex), len(ar)), [f.loc()])
             continue
-        if not any(o.kind == "call" and o.call is ex[0] for o in F.origins(f, ar[0].args[0], depth=6)):
-            R.violation("C06.guard", key + "|other-row", "any_result() in %s is not applied to the row extracted from this line" % f.path,
-                        [ar[0].loc()])
-            continue
-        g = PR.bool_guard(f, ar[0])
-        if g is None:
-            R.violation("C06.guard", key + "|no-branch", "result of any_result() is not branched on in %s" % f.path, [ar[0].loc()])
-            continue
-        sw, t_t, f_t = g
-        if not F.edge_target_unique(f, sw, t_t):
-            R.violation("C06.guard", key + "|merge", "true edge of the any_result() branch merges with other control flow", [ar[0].loc()])
-            continue
+        sw, t_t, f_t, witness = d
         bad = []
         for c in f.calls:
             if not (c.func.get("res_local") or c.func.get("local") or c.func.get("crate") == "sqlgrep"):
                 continue
             sn = short(c.name)
-            if PURE_LOCAL.search(sn):
+            if PURE_LOCAL.search(sn) or c is witness or any(k2 in helpers for k2 in P.callee_keys(f, c)):
                 continue
-            if not f.dominates(t_t, c.bb):
-                bad.append((c.loc(), "call to %s" % sn))
+            if f.dominates(t_t, c.bb):
+                continue
+            ks = P.callee_keys(f, c)
+            if ks and all(E.is_inert_fn(P, k2, inert) for k2 in ks):
+                continue   # statistics / diagnostics only: writes nothing a query result depends on
+            bad.append((c.loc(), "call to %s" % sn))
         for (bb, desc, line) in PR.self_writes(f):
-            if not f.dominates(t_t, bb):
-                bad.append(("%s:%d" % (f.file, line), desc))
+            if f.dominates(t_t, bb):
+                continue
+            fld = desc.split("self.")[-1].split(".")[0]
+            if fld in inert:
+                continue
+            bad.append(("%s:%d" % (f.file, line), desc))
         if bad:
             for loc, desc in bad:
                 R.violation("C06.guard", "%s|unguarded|%s" % (key, desc),
-                            "%s: %s is not dominated by the true edge of row.any_result(): a line that yields no row can touch query state"
-                            % (f.path, desc), [loc], {"guard": ar[0].loc()})
+                            "%s: %s is not dominated by the admitted edge of row.any_result(): a line that yields no row can touch query state"
+                            % (f.path, desc), [loc], {"guard": witness.loc()})
         else:
             n = len([c for c in f.calls if f.dominates(t_t, c.bb)])
-            R.ok("C06.guard", key, "all %d engine calls and self-writes lie behind the guard" % n, ar[0].loc())
-    R.floor("C06.guard", 3)
-    # who may call extract
+            R.ok("C06.guard", key, "all %d engine calls and state writes lie behind the admission guard%s"
+                 % (n, " (fields that cannot reach a result: %s)" % sorted(inert) if inert else ""), witness.loc())
+    R.floor("C06.guard", 1)
+    # wrappers around the per-line entries: a result table may be produced for a consumed line only if that line was admitted
+    R.rule("C06.output", "a function that hands its line to a per-line entry and then renders a result table does so only behind a test of "
+                         "that entry's admission outcome (a line that yields no row produces no output)")
     cg = P.callgraph()
-    exf = R.need_fn("sqlgrep::data_model::TableDefinition::extract")
-    for ck, callees in sorted(cg.items()):
-        if exf.key in callees:
-            cf = P.fns[ck]
-            owner = cf
-            while owner.kind == "Closure" and owner.parent_key in P.fns:
-                owner = P.fns[owner.parent_key]
-            k = owner.spath
-            if k in EXTRACT_CALLERS_ALLOWED or k.startswith("sqlgrep::table_editor") or k.startswith("sqlgrep::python_wrapper"):
-                R.ok("C06.callers", k, "guarded per-line entry point / interactive editor", cf.loc())
+    LC = set(f.key for f in per_line) | set(helpers)
+    changed = True
+    while changed:
+        changed = False
+        for k in sorted(reach):
+            w = P.fns[k]
+            if k in LC or w.kind == "Closure" or w.target != "lib":
+                continue
+            line_params = [a for a in range(1, w.arg_count + 1) if w.local_ty(a) in ("alloc::string::String", "&str", "&alloc::string::String")]
+            if not line_params:
+                continue
+            for c in w.calls:
+                if any(k2 in LC for k2 in P.callee_keys(w, c)) and \
+                        any(o.kind == "arg" and o.arg in line_params for a in c.args for o in F.origins(w, a, depth=6)):
+                    LC.add(k)
+                    changed = True
+                    break
+    RESULT = "sqlgrep::execution::aggregate_execution::AggregateExecutionEngine::execute_result"
+    rp = set(k for k in reach if P.fns[k].kind != "Closure" and any(P.fns[k2].spath == RESULT for k2 in P.reachable([P.fns[k]])))
+    n_wr = 0
+    for k in sorted(LC):
+        w = P.fns[k]
+        if w in per_line or k in helpers:
+            continue
+        n_wr += 1
+        lcalls = [c for c in w.calls if any(k2 in LC for k2 in P.callee_keys(w, c))]
+        for r in w.calls:
+            rk = P.callee_keys(w, r)
+            if not rk or not any(k2 in rp for k2 in rk) or any(k2 in LC for k2 in rk):
+                continue
+            after = [pc for pc in lcalls if r.bb in w.reachable_from(pc.bb) and r.bb != pc.bb]
+            if not after:
+                continue
+            guarded = False
+            for gsw, lab, tgt in F.guards_dominating(w, r.bb):
+                info = F.switch_info(w, gsw)
+                if not info:
+                    continue
+                if info[0] == "discr" and re.search(r"(ControlFlow|result::Result)$", (info[1].get("adt") or "").split("<")[0]):
+                    continue
+                d = w.blocks[gsw]["term"]["discr"]
+                subject = info[1]["pl"] if info[0] == "discr" else d
+                if any(o.kind == "call" and o.call in after for o in F.origins(w, subject, depth=12)):
+                    guarded = True
+            key = "%s|%s" % (w.spath.split("::")[-1], short(r.name).split("::")[-1])
+            if guarded:
+                R.ok("C06.output", key, "rendered only behind the admission outcome of the per-line call", r.loc())
             else:
-                R.violation("C06.callers", k, "%s calls TableDefinition::extract directly, bypassing the any_result() admission guard of the "
-                                              "engine's per-line entry points" % owner.path, [cf.loc()])
-    R.floor("C06.callers", 3)
+                R.violation("C06.output", key, "%s consumes a line through %s and then calls %s unconditionally: a line that yields no row (or "
+                                               "is rejected by the table) still produces a result table"
+                            % (w.path, short(after[0].name).split("::")[-1], short(r.name).split("::")[-1]), [r.loc(), after[0].loc()])
+    R.note("C06.output: %d wrapper(s) around the per-line entries analysed" % n_wr)
+    # who may call extract: only functions that carry the admission test themselves (or the interactive editor)
+    for k, cf in sorted(P.fns.items()):
+        if cf.target != "lib" or not PR.calls_matching(cf, EXTRACT):
+            continue
+        owner = E.owner_of(P, cf)
+        kk = owner.spath
+        if kk.startswith("sqlgrep::table_editor") or kk.startswith("sqlgrep::python_wrapper"):
+            R.ok("C06.callers", kk, "interactive editor preview (not a query)", cf.loc(), nontrivial=False)
+        elif cf.key in helpers or direct_admit(cf) is not None:
+            R.ok("C06.callers", kk, "carries the any_result() admission test for the row it extracts", cf.loc())
+        else:
+            R.violation("C06.callers", kk, "%s calls TableDefinition::extract without testing any_result() on the row: the admission guard of "
+                                           "the engine's per-line entry points is bypassed" % owner.path, [cf.loc()])
+    R.floor("C06.callers", 1)
     # admission predicate
     anyf = R.need_fn("sqlgrep::data_model::Row::any_result")
     names = [short(c.name) for c in anyf.calls]
     child = [short(c.name) for ch in P.children.get(anyf.key, []) for c in ch.calls]
-    if any(n.endswith("::any") for n in names) and child == ["sqlgrep::model::Value::is_not_null"] and \
-            not any(n.endswith(("::skip", "::take", "::filter", "::rev", "::step_by")) for n in names):
+    adapters = [n for n in names if n.endswith(("::skip", "::take", "::filter", "::rev", "::step_by", "::skip_while", "::take_while", "::nth"))]
+    if any(n.endswith("::any") for n in names) and child == ["sqlgrep::model::Value::is_not_null"] and not adapters:
         R.ok("C06.admit", "any_result", "iter().any(|x| x.is_not_null()) over all columns", anyf.loc())
+    elif any(n.endswith("::all") for n in names) and child == ["sqlgrep::model::Value::is_null"] and not adapters and \
+            any(st["rv"]["k"] == "unop" and st["rv"]["op"] == "Not" for _, st in anyf.stmts()):
+        R.ok("C06.admit", "any_result", "!iter().all(|x| x.is_null()) over all columns", anyf.loc())
     else:
-        R.violation("C06.admit", "any_result", "Row::any_result is no longer `columns.iter().any(|x| x.is_not_null())` (callees: %s / %s)"
-                    % (names, child), [anyf.loc()])
+        why = _any_result_loop_problem(anyf) if not adapters else "the columns are not all visited (%s)" % adapters[0]
+        if why is None:
+            R.ok("C06.admit", "any_result", "explicit loop over all columns: true at the first non-NULL column, false after the loop", anyf.loc())
+        else:
+            R.violation("C06.admit", "any_result", "Row::any_result does not mean `some column is not NULL`: %s" % why, [anyf.loc()])
     _check_not_null_cut(R, exf)
     # join route
     jf = R.need_fn("sqlgrep::execution::join::JoinedTableData::execute")
@@ -116,6 +232,98 @@ def run(R):
                 else:
                     R.violation("C06.limit", owner, "num_output_rows is written outside update_limit", ["%s:%d" % (f.file, s["line"])])
     R.assume("extraction is a pure function of (definition, line): decided separately by C01.pure")
+
+
+def _any_result_loop_problem(f):
+    """None if f is `for c in &self.columns { if c is not NULL { return true } } false` in any spelling; else a description.
+    Decided by enumerating the paths of the loop body with the knowledge each branch gives about the element."""
+    nx = [c for c in f.calls if short(c.name).endswith("as core::iter::traits::iterator::Iterator>::next")]
+    if len(nx) != 1:
+        return "no single loop over the columns (%d iterator advances)" % len(nx)
+    g = PR.discr_guard(f, nx[0], "Some")
+    lp = PR.loop_of(f, nx[0].bb)
+    if g is None or lp is None:
+        return "the column iteration is not a loop"
+    header, body = lp
+    bool_locals = set(l for l, d in enumerate(f.locals) if d["ty"] == "bool")
+    nulltest = {}
+    for c in f.calls:
+        if short(c.name) in ("sqlgrep::model::Value::is_null", "sqlgrep::model::Value::is_not_null") and c.dest is not None:
+            nulltest[c.dest["l"]] = short(c.name).endswith("is_null")
+    problems = []
+
+    def walk(b, isnull, env, seen, in_loop):
+        if (b, isnull, tuple(sorted(env.items()))) in seen:
+            return
+        seen.add((b, isnull, tuple(sorted(env.items()))))
+        env = dict(env)
+        ret = None
+        for st in f.blocks[b]["stmts"]:
+            if st["k"] != "assign" or st["pl"]["p"]:
+                continue
+            l = st["pl"]["l"]
+            rv = st["rv"]
+            if l in bool_locals or l == 0:
+                if rv["k"] == "use" and rv["op"]["k"] == "const" and rv["op"].get("v") in ("true", "false"):
+                    env[l] = rv["op"]["v"] == "true"
+                elif rv["k"] == "use" and rv["op"]["k"] in ("copy", "move") and not rv["op"]["pl"]["p"] and rv["op"]["pl"]["l"] in env:
+                    env[l] = env[rv["op"]["pl"]["l"]]
+                elif rv["k"] == "unop" and rv["op"] == "Not" and rv["o"]["k"] in ("copy", "move") and rv["o"]["pl"]["l"] in env:
+                    env[l] = not env[rv["o"]["pl"]["l"]]
+                else:
+                    env.pop(l, None)
+        t = f.blocks[b]["term"]
+        if t["k"] == "call" and t.get("dest") is not None and not t["dest"]["p"]:
+            dl = t["dest"]["l"]
+            env.pop(dl, None)
+            if dl in nulltest and isnull is not None:
+                env[dl] = (isnull == nulltest[dl])
+        if b in f.exits() or t["k"] == "return":
+            val = env.get(0)
+            if in_loop:
+                if val is not True or isnull is not False:
+                    problems.append("returns %s from inside the loop for an element that is %s" %
+                                    (val, {True: "NULL", False: "not NULL", None: "not tested"}[isnull]))
+            else:
+                if val is not False:
+                    problems.append("returns %s after all columns were NULL" % val)
+            return
+        succs = f.succs(b)
+        if t["k"] == "switch":
+            info = F.switch_info(f, b)
+            d = t["discr"]
+            if info and info[0] == "discr" and (info[1].get("adt") or "").endswith("model::Value") and in_loop:
+                names_ = {dv: n for dv, n in info[1].get("variants", [])}
+                for lab, tgt in info[2].items():
+                    if lab == "otherwise":
+                        listed = set(names_.get(l2) for l2 in info[2] if l2 != "otherwise")
+                        walk(tgt, False if "Null" in listed else None, env, seen, in_loop)
+                    else:
+                        walk(tgt, names_.get(lab) == "Null", env, seen, in_loop)
+                return
+            if d["k"] in ("copy", "move") and not d["pl"]["p"] and d["pl"]["l"] in env and d.get("ty") == "bool":
+                val = env[d["pl"]["l"]]
+                zero = [bb for v, bb in t["targets"] if v == "0"]
+                # a null test result also tells which way the element is
+                succs = [t["otherwise"]] if val else zero
+            elif d["k"] in ("copy", "move") and d["pl"]["l"] in nulltest and isnull is None:
+                zero = [bb for v, bb in t["targets"] if v == "0"]
+                is_null_fn = nulltest[d["pl"]["l"]]
+                for tgt in zero:
+                    walk(tgt, (not is_null_fn) if True else None, env, seen, in_loop)   # result false
+                walk(t["otherwise"], is_null_fn, env, seen, in_loop)                       # result true
+                return
+        for y in succs:
+            if y == header and in_loop:
+                if isnull is not True:
+                    problems.append("continues with the next column although this one is %s" % ("not NULL" if isnull is False else "not tested"))
+                continue
+            walk(y, isnull, env, seen, in_loop)
+
+    walk(g[1], None, {}, set(), True)
+    for nt in g[2]:
+        walk(nt, None, {}, set(), False)
+    return problems[0] if problems else None
 
 
 def _check_not_null_cut(R, exf):
@@ -138,6 +346,21 @@ def _check_not_null_cut(R, exf):
     clears = [c.bb for c in PR.calls_matching(exf, r"^alloc::vec::Vec::clear$")]
     pushes = PR.calls_matching(exf, r"^alloc::vec::Vec::push$")
     isnull = PR.calls_matching(exf, r"^sqlgrep::model::Value::(is_null|is_not_null)$")
+    # blocks that return an empty row built from a fresh vector nothing was pushed into
+    push_recv = set()
+    for pc in pushes:
+        for o in F.origins(exf, pc.args[0], depth=6, through_calls=False):
+            if o.kind == "call":
+                push_recv.add(id(o.call))
+    empty_rows = []
+    row_sites = [(c.args[0], c.bb) for c in PR.calls_matching(exf, r"^sqlgrep::data_model::Row::new$")]
+    for i, st in exf.stmts():
+        if st["k"] == "assign" and st["rv"]["k"] == "aggr" and (st["rv"].get("adt") or "").endswith("data_model::Row") and st["rv"]["ops"]:
+            row_sites.append((st["rv"]["ops"][0], i))
+    for rop, rb in row_sites:
+        os_ = F.origins(exf, rop, depth=8, through_calls=False)
+        if os_ and all(o.kind == "call" and re.search(r"^alloc::vec::Vec::new$", short(o.call.name)) and id(o.call) not in push_recv for o in os_):
+            empty_rows.append(rb)
     ok_all = True
     for sw in sws:
         t = exf.blocks[sw]["term"]
@@ -153,12 +376,12 @@ def _check_not_null_cut(R, exf):
             R.violation("C06.admit", "extract|cut-unconditional", "the NOT NULL cut in extract() is not conditioned on the value being NULL",
                         [exf.loc(sw)])
             continue
-        good, bad = PR.all_paths_hit_flags(exf, not_nullable_edge, clears)
+        good, bad = PR.all_paths_hit_flags(exf, not_nullable_edge, clears + empty_rows)
         if not good:
             ok_all = False
             R.violation("C06.admit", "extract|cut-escapes",
-                        "extract(): after a NULL in a NOT NULL column there is a path to the return that does not clear the row "
-                        "(the line would be admitted)", [exf.loc(sw)], {"offending_exit_block": "bb%d" % bad})
+                        "extract(): after a NULL in a NOT NULL column there is a path to the return that neither clears the row nor returns an "
+                        "empty one (the line would be admitted)", [exf.loc(sw)], {"offending_exit_block": "bb%d" % bad})
             continue
         # after the clear no further push
         for cb in clears:
@@ -168,12 +391,17 @@ def _check_not_null_cut(R, exf):
                 ok_all = False
                 R.violation("C06.admit", "extract|push-after-clear", "extract(): a value is pushed after the NOT NULL cut cleared the row",
                             [late[0].loc()])
-    # NULL test after DEFAULT substitution: is_null is applied to the value returned by ColumnParsing::extract (which applies DEFAULT)
+    # the NULL test is applied to the very value that goes into the row (after DEFAULT substitution and trimming)
+    pushed_src = set()
+    for pc in pushes:
+        for o in F.origins(exf, pc.args[1], depth=8, through_calls=False):
+            if o.kind == "call":
+                pushed_src.add(id(o.call))
     for c in isnull:
-        src = PR.origin_has_call(exf, c.args[0], r"^sqlgrep::data_model::ColumnParsing::extract$")
-        if src is None:
+        src = [o for o in F.origins(exf, c.args[0], depth=8, through_calls=False) if o.kind == "call"]
+        if not any(id(o.call) in pushed_src for o in src):
             ok_all = False
-            R.violation("C06.admit", "extract|null-test-source", "the NULL test in extract() is not applied to the column's extracted value",
+            R.violation("C06.admit", "extract|null-test-source", "the NULL test in extract() is not applied to the value that is put into the row",
                         [c.loc()])
     # every row extract() returns is the vector filled by the tested loop (or an empty one): no path builds a row around the test
     rows = [(c.args[0], c.loc()) for c in PR.calls_matching(exf, r"^sqlgrep::data_model::Row::new$")]
